@@ -30,10 +30,16 @@ def cellOK (A B : Table) (f : SMap) (s a : Nat) : Bool :=
   ea.isEmpty ||
     (effective (B.actions (ap f s) a) == ea.map (mapAct f) && ea.all (shiftDomOK f))
 
+/-- `X` is reduced at the end of a non-terminal extra (null look-ahead) in some mapped state: only
+for such symbols does the runtime compare the goto target with the current state (`extra` flag). -/
+def eoeSym (A : Table) (f : SMap) (X : Nat) : Bool :=
+  f.any fun e => A.lexEnd e.1 && hasReduceOf X (A.actions e.1 0)
+
 def gotoOK (A B : Table) (f : SMap) (s X : Nat) : Bool :=
   let q := A.goto s X
   q == 0 ||
-    (inDom f q && B.goto (ap f s) X == ap f q && ((q == s) == (ap f q == ap f s)))
+    (inDom f q && B.goto (ap f s) X == ap f q &&
+      (!eoeSym A f X || ((q == s) == (ap f q == ap f s))))
 
 def stateOK (A B : Table) (f : SMap) (s : Nat) : Bool :=
   ap f s != 0 && decide (ap f s < B.stateCount) &&
